@@ -81,7 +81,10 @@ class Ideal:
         for i, op in enumerate(ops):
             if i >= len(lines):
                 break
-            exp = self.expect(op, lines[i])
+            try:
+                exp = self.expect(op, lines[i])
+            except KeyError:
+                exp = None          # an op through a handle that does not exist (e.g. after shrinking): nothing to require
             if exp is not None:
                 bad.append((i, op, lines[i], exp))
                 if stop_at_first:
